@@ -23,7 +23,7 @@ macro_rules! max_min_ops {
 }
 
 macro_rules! binary_ops {
-    ($oper:expr) => {{
+    ($oper:expr, $checked_int_oper:expr) => {{
         |selfobj: &TulispObject, other: &TulispObject| -> Result<TulispObject, Error> {
             if selfobj.floatp() {
                 let s: f64 = selfobj.as_float().unwrap();
@@ -36,7 +36,16 @@ macro_rules! binary_ops {
             } else {
                 let s: i64 = selfobj.try_into()?;
                 let o: i64 = other.try_into()?;
-                Ok($oper(&s, &o).into())
+                match $checked_int_oper(s, o) {
+                    Some(vv) => Ok(vv.into()),
+                    None => Err(Error::new(
+                        crate::ErrorKind::OutOfRange,
+                        format!(
+                            "Integer overflow or division by zero in arithmetic on {} and {}",
+                            s, o
+                        ),
+                    )),
+                }
             }
         }
     }};
